@@ -50,13 +50,13 @@ ENV.update({"CARGO_NET_OFFLINE": "true", "GOPROXY": "off", "PIP_NO_INDEX": "1"})
 # --------------------------------------------------------------------------------------------
 DYNAMIC = {
     "C01": dict(profiles=["core", "weak", "barrier", "finalize"], mode="od", tags=["C01"]),
-    "C02": dict(profiles=["reclaim", "weak", "core"], mode="od", tags=["C02"]),
+    "C02": dict(profiles=["reclaim", "weak", "core"], mode="od", tags=["C02"], release_too=True),
     "C03": dict(profiles=["core", "protocol", "weak"], mode="od", tags=["C03"]),
     "C04": dict(profiles=["core", "weak", "reclaim"], mode="od", tags=["C04"]),
     # a reachable value lost after an upgrade-and-store / a barriered adoption / a resurrection is a
     # violation of the weak / barrier / finalization property too: C01's monitor counts for them
     "C05": dict(profiles=["weak", "finalize"], mode="od", tags=["C05", "C01"]),
-    "C06": dict(profiles=["barrier", "metrics", "weak"], mode="od", tags=["C06", "C01", "C05"]),
+    "C06": dict(profiles=["barrier", "metrics", "weak"], mode="od", tags=["C06", "C01", "C05"], release_too=True),
     "C07": dict(profiles=["finalize"], mode="od", tags=["C07", "C01"]),
     "C08": dict(profiles=["protocol", "pacing", "finalize"], mode="sd", tags=["C08"]),
     "C09": dict(profiles=["pacing", "protocol", "soak"], mode="sd", tags=["C09"], extra=[("decimal", "odt")]),
